@@ -7,9 +7,9 @@ func VH_C01_AccountRecord_sym() {
 	a := &Account{Login: vString("login", 8), Name: vString("name", 40)}
 	copy(a.Access[:], vBytesN("access", 8))
 	if hasPw {
-		a.Password = "H:secret"
+		a.Password = "H:zzsecret"
 	} else {
-		a.Password = "H:"
+		a.Password = "H:zz"
 	}
 	var fields [][]byte
 	fields = append(fields, refField(0, 0x66, []byte(a.Name)))
@@ -33,10 +33,10 @@ func VH_C01_AccountRecord_sym() {
 }
 
 func VH_C01_AccountRecordDrain_sym() {
-	a := &Account{Login: string(vBytesEach("login", 3)), Name: string(vBytesEach("name", 3)), Password: "H:"}
+	a := &Account{Login: string(vBytesEach("login", 3)), Name: string(vBytesEach("name", 3)), Password: "H:zz"}
 	hasPassword := vBool("account_has_a_password")
 	if hasPassword {
-		a.Password = "H:pw"
+		a.Password = "H:zzpw"
 	}
 	copy(a.Access[:], vBytesN("access", 8))
 	var ref []byte
